@@ -250,6 +250,12 @@ DEFAULT_GROUPS = {
     "null": [("a", "Int", ["null"]), ("b", "[Int]", ["null"]), ("c", "String", ["null"])],
     "nonnull": [("a", "Int!", I(3)), ("b", "[Int!]!", ["list", [I(1)]])],
     "scalar": [("a", "Date", ["str", "2020-01-01"])],
+    # a pass-through scalar holding values of several Python types that compare / hash EQUAL (1 == True == 1.0):
+    # every default keeps its own literal kind, whatever was printed before it
+    "scalar-typed": [
+        ("a", "Raw", I(1)), ("b", "Raw", ["bool", True]), ("c", "Raw", ["float", "1.0"]), ("d", "Raw", ["bool", False]), ("e", "Raw", I(0)),
+        ("f", "Raw", ["float", "0.0"]), ("g", "Raw", ["float", "2.0"]), ("h", "Raw", I(2)), ("i", "[Raw]", ["list", [["bool", True], I(1), ["float", "1.0"]]]),
+    ],
     "scalar-numstr": [("a", "Date", ["str", "1e3"]), ("b", "Date", ["str", "12"])],
 }
 def ensure_float_input(sm):
@@ -262,7 +268,11 @@ def ensure_list_single(sm):
     sm["directives"].append(_dir("single", ["FIELD"], [mk_ival("xs", "[Inp]", default=["obj", [["k", I(1)]]]), mk_ival("n", "[[Int]]", default=I(1)), mk_ival("c", "[Color!]", default=["enum", "BLUE"])]))
 
 
-_NEEDS = {"scalar-almost-int": ensure_scalar, "list-single": ensure_list_single, "float-precise": ensure_float_input, "enum": ensure_enum, "obj": ensure_input, "scalar": ensure_scalar, "scalar-numstr": ensure_scalar}
+def ensure_raw(sm):
+    _add_type(sm, mk_type("scalar", "Raw"))
+
+
+_NEEDS = {"scalar-typed": ensure_raw, "scalar-almost-int": ensure_scalar, "list-single": ensure_list_single, "float-precise": ensure_float_input, "enum": ensure_enum, "obj": ensure_input, "scalar": ensure_scalar, "scalar-numstr": ensure_scalar}
 
 
 def _f_default(group):
@@ -478,6 +488,9 @@ EXTRA_DESCRIPTIONS = {
     "ls": "Line\u2028separator",
     "nbsp": "No\u00a0break space",
     "tab-inside": "Tab\tinside",
+    # an interior line made only of blanks (not an empty line): it must keep its blanks on nested elements too
+    "ws-line-inside": "First line\n    \nlast line",
+    "tab-line-inside": "First line\n\t\nlast line",
 }
 
 # string content alphabet of DESIGN 4.1, pushed through every place where the schema printers emit a string
@@ -711,7 +724,7 @@ for _i, _w in enumerate(WRAPPERS):
 # large, self-contained features: enumerated alone and with a few carriers only (see feature_sets)
 _reg("w:deep", f_wrap_deep, extra=["k:enum", "k:input", "desc:one"])
 for _g in DEFAULT_GROUPS:
-    _reg("d:" + _g, _f_default(_g), extra=(["k:input", "dir:def", "desc:one"] if _g in ("float-precise", "list-single", "scalar-almost-int") else None))
+    _reg("d:" + _g, _f_default(_g), extra=(["k:input", "dir:def", "desc:one"] if _g in ("float-precise", "list-single", "scalar-almost-int", "scalar-typed") else None))
 _reg("d:nested-defaults", f_nested_defaults, extra=["k:enum", "k:input", "dir:applied"])
 _reg("dep:field", f_dep_field)
 _reg("dep:enum", f_dep_enum)
@@ -789,7 +802,7 @@ def with_internals(sm):
             for i, v in enumerate(t["values"]):
                 v["value"] = 10 * (i + 1)
         elif t["kind"] == "scalar":
-            t["impl"] = "date"
+            t["impl"] = "typed" if t["name"] == "Raw" else "date"
         for f in t.get("fields", []):
             if t["kind"] == "input":
                 f["python_name"] = "py_" + f["name"]
